@@ -86,6 +86,22 @@ fn corpus(seed: u64, n: usize) -> Vec<Entry> {
             _ => { let n = g.below(24); out.push(Entry { bytes: (0 .. n).map(|_| g.byte()).collect(), item: None, kind: "random", chain: None }) }
         }
     }
+    // float items of all three widths: boundary-dense and uniform bit patterns (judged against absolute expectations by C12N)
+    {
+        let tape: Vec<u8> = (0 .. 64u64).flat_map(|k| tape_for(1_000_000 + k)).collect();
+        let mut g = Gen::new(&tape);
+        let s16: [u16; 14] = [0, 0x8000, 1, 0x03ff, 0x0400, 0x3c00, 0xbc00, 0x7bff, 0x7c00, 0xfc00, 0x7c01, 0x7e00, 0xfe01, 0x7dff];
+        let s32: [u32; 14] = [0, 0x8000_0000, 1, 0x007f_ffff, 0x0080_0000, 0x3f80_0000, 0x7f7f_ffff, 0x7f80_0000, 0xff80_0000, 0x7f80_0001, 0x7fc0_0000, 0xffa5_5aa5, 0x3380_0000, 0x4770_0000];
+        let s64: [u64; 10] = [0, 1 << 63, 1, 0x3ff0_0000_0000_0000, 0x7fef_ffff_ffff_ffff, 0x7ff0_0000_0000_0000, 0x7ff0_0000_0000_0001, 0x7ff8_0000_0000_0000, 0x36a0_0000_0000_0000, 0x47ef_ffff_e000_0000];
+        for k in 0 .. 900usize {
+            let it = match k % 3 {
+                0 => Item::F16(if k / 3 < s16.len() { s16[k / 3] } else { g.u16() }),
+                1 => Item::F32(if k / 3 < s32.len() { s32[k / 3] } else { g.f32_bits() }),
+                _ => Item::F64(if k / 3 < s64.len() { s64[k / 3] } else { g.f64_bits() })
+            };
+            out.push(Entry { bytes: it.encode(), item: Some(it), kind: "float", chain: None });
+        }
+    }
     for e in out.iter_mut() { if e.bytes.len() > 4000 { e.bytes.truncate(4000); e.item = None } }
     // deep nesting chains (after the truncation above: these stay whole), incl. more than 65535 open containers
     for kind in 0 .. vcore::gen::CHAIN_KINDS { for depth in [300usize, 5000, 66_000, 100_000] { let (b, _, nest) = vcore::gen::chain(kind, depth); out.push(Entry { bytes: b, item: None, kind: "deep-chain", chain: Some(nest) }) } }
@@ -190,12 +206,89 @@ fn noalloc_skip(i: u64, st: &mut Stats) -> CaseResult {
     Ok(())
 }
 
+/// C12 in every feature configuration: the bit pattern a float item yields through each float entry point (accessors,
+/// `Decode` impls, serde bridge) against absolute expectations - same width: identical bits; narrower item through a wider
+/// entry point: the exact value; wider item through a narrower one: a type error; half items without the `half` feature:
+/// a type error (documented).
+fn floats_everywhere(i: u64, st: &mut Stats) -> CaseResult {
+    let w = match world() { Ok(w) => w, Err(e) => return Err(Fail::new("infrastructure", e.clone())) };
+    let e = &w.entries[i as usize];
+    if e.kind != "float" { return Ok(()) }
+    let len = e.bytes.len();
+    // expected bits per target width: None = must be a type error
+    let (want32, want64, want16): (Option<u32>, Option<u64>, Option<u16>) = match e.item.as_ref().unwrap() {
+        Item::F16(h) => { let x = vcore::half_ref::f16_bits_to_f64(*h); (Some((x as f32).to_bits()), Some(x.to_bits()), Some(*h)) }
+        Item::F32(b) => (Some(*b), Some((f32::from_bits(*b) as f64).to_bits()), None),
+        Item::F64(b) => (None, Some(*b), None),
+        _ => return Ok(())
+    };
+    let is_half_item = matches!(e.item, Some(Item::F16(_)));
+    let item_nan = match e.item.as_ref().unwrap() { Item::F16(h) => vcore::half_ref::f16_is_nan(*h), Item::F32(b) => f32::from_bits(*b).is_nan(), Item::F64(b) => f64::from_bits(*b).is_nan(), _ => false };
+    let same_width = |target: u8| matches!((e.item.as_ref().unwrap(), target), (Item::F16(_), 16) | (Item::F32(_), 32) | (Item::F64(_), 64));
+    let parse = |v: &str| -> Option<(u32, usize)> { let v = v.strip_prefix('o')?; let (h, p) = v.split_once('@')?; Some((u32::from_str_radix(h, 16).ok()?, p.parse().ok()?)) };
+    for c in 0 .. 6 {
+        let v = &w.verdicts[i as usize][c];
+        let get = |op: &str| -> Result<&String, Fail> { v.get(op).ok_or_else(|| Fail::new("infrastructure", format!("no `{}` verdict for {} in configuration {}", op, hex(&e.bytes), CONFIGS[c].0))) };
+        let fail = |op: &str, what: String| Fail::new(format!("floats/{}/{}", op, if has_half(c) { "half" } else { "no-half" }), format!("configuration `{}`: `{}` on the item {} = {}: {}", CONFIGS[c].0, op, hex(&e.bytes), e.item.as_ref().unwrap().render(), what));
+        for (pre, _) in [("X", 0), ("XT", 0), ("XS", 0)] {
+            st.evals(2);
+            // 32-bit target
+            let op = format!("{}:f32", pre);
+            let got = get(&op)?;
+            let expect = if is_half_item && !has_half(c) { None } else { want32 };
+            match (expect, parse(got)) {
+                (Some(b), Some((x, p))) => {
+                    let ok = if item_nan && !same_width(32) { f32::from_bits(x).is_nan() } else { x == b };
+                    if !ok { return Err(fail(&op, format!("gave the bits {:08x}, the exact value has the bits {:08x}", x, b))) }
+                    if p != len { return Err(fail(&op, format!("stopped at {} of {}", p, len))) }
+                }
+                (None, None) => if !is_err_class(got, "type") { return Err(fail(&op, format!("must be refused as a type mismatch, got {}", got))) },
+                (Some(b), None) => return Err(fail(&op, format!("was refused ({}); the exact value has the bits {:08x}", got, b))),
+                (None, Some((x, _))) => return Err(fail(&op, format!("must be refused as a type mismatch but gave the bits {:08x}", x)))
+            }
+            // 64-bit target
+            let (oph, opl) = (format!("{}:f64h", pre), format!("{}:f64l", pre));
+            let (gh, gl) = (get(&oph)?, get(&opl)?);
+            let expect = if is_half_item && !has_half(c) { None } else { want64 };
+            match (expect, parse(gh), parse(gl)) {
+                (Some(b), Some((h, p)), Some((l, _))) => {
+                    let x = (h as u64) << 32 | l as u64;
+                    let ok = if item_nan && !same_width(64) { f64::from_bits(x).is_nan() } else { x == b };
+                    if !ok { return Err(fail(&oph[.. oph.len() - 1], format!("gave the bits {:016x}, the exact value has the bits {:016x}", x, b))) }
+                    if p != len { return Err(fail(&oph[.. oph.len() - 1], format!("stopped at {} of {}", p, len))) }
+                }
+                (None, None, None) => if !is_err_class(gh, "type") { return Err(fail(&oph[.. oph.len() - 1], format!("must be refused as a type mismatch, got {}", gh))) },
+                (Some(b), _, _) => return Err(fail(&oph[.. oph.len() - 1], format!("was refused ({}); the exact value has the bits {:016x}", gh, b))),
+                (None, _, _) => return Err(fail(&oph[.. oph.len() - 1], format!("must be refused as a type mismatch but gave {} / {}", gh, gl)))
+            }
+        }
+        if has_half(c) {
+            st.eval();
+            let got = get("X:f16")?;
+            // (Decoder::f16 returns the half item's value as an f32)
+            match (want16.and(want32), parse(got)) {
+                (Some(b), Some((x, p))) => { let ok = if item_nan { f32::from_bits(x).is_nan() } else { x == b }; if !ok || p != len { return Err(fail("X:f16", format!("gave the f32 bits {:08x}@{}, the item's exact value has the bits {:08x} and it ends at {}", x, p, b, len))) } }
+                (None, None) => if !is_err_class(got, "type") { return Err(fail("X:f16", format!("a wider item must be refused as a type mismatch, got {}", got))) },
+                (Some(_), None) => return Err(fail("X:f16", format!("was refused ({})", got))),
+                (None, Some((x, _))) => return Err(fail("X:f16", format!("a wider item must be refused but gave {:08x}", x)))
+            }
+        }
+    }
+    st.class(match e.item.as_ref().unwrap() { Item::F16(_) => "floats/half item", Item::F32(_) => "floats/single item", _ => "floats/double item" });
+    if item_nan { st.class("floats/NaN") }
+    st.nontrivial(hash_of(&e.bytes));
+    if i % 97 == 0 { st.sample(i, || format!("{} = {}: X:f32 -> {}", hex(&e.bytes), e.item.as_ref().unwrap().render(), (0 .. 6).map(|c| format!("{}={}", CONFIGS[c].0, w.verdicts[i as usize][c].get("X:f32").cloned().unwrap_or_default())).collect::<Vec<_>>().join(" "))) }
+    Ok(())
+}
+
 fn subs() -> Vec<Sub> {
     let n = match world() { Ok(w) => w.entries.len() as u64, Err(_) => 1 };
     if let Ok(w) = world() { eprintln!("  six probe builds ran {} inputs; {} verdict lines collected", w.entries.len(), w.lines) }
     vec![
         Sub { prop: "C20", name: "transcripts", rule: "one generated corpus (all item trees <= 4 nodes over the structural leaf set, hand-picked shapes that the typed operations accept, grammar-generated and re-framed items, mutated / truncated / random inputs) through ~150 operations (accessors, iterators, skip, typed decodes incl. derived types, Size, len + encode into bounded slices, serde bridge deserialisers and a serializer into a slice) in six separately built configurations; every (operation, input) line present in >= 2 configurations must have the same verdict (value digest or error class, and position), except the documented differences decided from the input's content; evaluations = verdict lines; non-trivial = line present in >= 3 configurations and input >= 2 bytes",
               kind: Kind::Enumerate { quick: n, thorough: n, f: compare, complete_quick: false, complete_thorough: false } },
+        Sub { prop: "C12N", name: "floats-in-every-configuration", rule: "900 float items (half, single, double; boundary patterns - zeros, subnormals, extremes, infinities, quiet and signalling NaNs with payloads - and uniform bits) through Decoder::f32/f64/f16, Decode for f32/f64 and the serde bridge's f32/f64 in each of the six feature configurations, against absolute expectations: same width -> identical bits; narrower item -> the exact wider value (NaN stays NaN); wider item -> type mismatch; half item without the half feature -> type mismatch; position = end of the item; evaluations = verdicts judged",
+              kind: Kind::Enumerate { quick: n, thorough: n, f: floats_everywhere, complete_quick: false, complete_thorough: false } },
         Sub { prop: "C06N", name: "noalloc-skip", rule: "well-formed corpus entries through skip() of the two no-alloc builds: position == item length, or the documented refusal and the tree does contain an indefinite array/map below a definite one",
               kind: Kind::Enumerate { quick: n, thorough: n, f: noalloc_skip, complete_quick: false, complete_thorough: false } },
     ]
